@@ -45,9 +45,9 @@ def main():
     rac.section("lstsq", "matrices of every shape 1..5 x 1..5: random, rank-deficient, rows/columns scaled by 1e-6..1e6, with "
                 "prescribed singular values; rcond in {None(default 1e-14), 1e-12, 1e-5, 1e-2, 0.5}, sing_val_cutoff in {None, 1, 2}; "
                 "SVD.lstsq vs the reference truncated pseudo-inverse; also residual orthogonality and minimum norm for full-rank "
-                "kept spectra", "25 shapes x 6 constructions x 15 settings")
+                "kept spectra", "25 shapes x 8 constructions (incl. the whole matrix in tiny / huge units) x 15 settings")
     for (m, n) in itertools.product(range(1, 6), repeat=2):
-        for kind in ("rand", "rankdef", "scaled", "spectrum-big", "spectrum-small", "zero-col"):
+        for kind in ("rand", "rankdef", "scaled", "spectrum-big", "spectrum-small", "zero-col", "tiny-units", "huge-units"):
             M = rng.normal(size=(m, n))
             if kind == "rankdef" and min(m, n) > 1:
                 M[-1] = 2 * M[0] if m > 1 else M[-1]
@@ -61,6 +61,10 @@ def main():
                 M = U @ np.diag(sv) @ Vh
             elif kind == "zero-col":
                 M[:, 0] = 0.0
+            elif kind == "tiny-units":
+                M = M * 1e-17          # a well-conditioned system expressed in tiny units: truncation is RELATIVE to the largest singular value
+            elif kind == "huge-units":
+                M = M * 1e17
             b = rng.normal(size=m)
             for rcond, cutoff in itertools.product((None, 1e-12, 1e-5, 1e-2, 0.5), (None, 1, 2)):
                 try:
@@ -166,12 +170,27 @@ def main():
                 ok = np.allclose(J, Jfd, rtol=2e-3, atol=1e-4 * max(1.0, float(np.max(np.abs(Jfd)))))
             except Exception as ex:     # noqa
                 ok, J, Jfd = False, repr(ex), None
+            if ok and rescale is not None:
+                # the same view after the limits of a knob (hence the affine map scaled <-> native) were changed: still the derivative of view(x)
+                try:
+                    lo, hi = prob["lim"][0]
+                    opt.vary[0].limits = (lo * 3.0 - 1.0, hi * 1.5 + 2.0)
+                    J = np.atleast_2d(view.get_jacobian(x0))
+                    Jfd = fd_jac(lambda xx: view(xx), x0, h)
+                    ok = np.allclose(J, Jfd, rtol=2e-3, atol=1e-4 * max(1.0, float(np.max(np.abs(Jfd)))))
+                    if not ok:
+                        J = f"after changing the limits of knob 0 to {opt.vary[0].limits}: {J}"
+                except Exception as ex:     # noqa
+                    ok, J, Jfd = False, "after changing the limits of knob 0: " + repr(ex), None
             rac.case((json.dumps(prob), rescale, scalar), sample=dict(fam=prob["fam"], weights=prob["w"], rescale=rescale, scalar=scalar))
             if not ok:
                 rac.fail(f"jacobian {n_} {rescale} {scalar}", f"C16 view Jacobian (rescale_x={rescale}, return_scalar={scalar}, weights {prob['w']}): {J} vs finite differences {Jfd}",
                          PRELUDE + G.SRC + SRC + f"prob = {prob!r}\nopt, d, act = build(prob)\nview = opt.get_merit_function(check_limits=False, return_scalar={scalar}, rescale_x={rescale!r})\n"
                          f"x0 = np.array(view.get_x(), dtype=float)\nJ = np.atleast_2d(view.get_jacobian(x0)); Jfd = fd_jac(lambda xx: view(xx), x0, {h!r})\nprint(J, Jfd)\n"
-                         "assert np.allclose(J, Jfd, rtol=2e-3, atol=1e-4 * max(1.0, float(np.max(np.abs(Jfd)))))\n", "MeritFuctionView.get_jacobian")
+                         "assert np.allclose(J, Jfd, rtol=2e-3, atol=1e-4 * max(1.0, float(np.max(np.abs(Jfd)))))\n"
+                         + ("" if rescale is None else f"lo, hi = prob['lim'][0]; opt.vary[0].limits = (lo * 3.0 - 1.0, hi * 1.5 + 2.0)\n"
+                            f"J = np.atleast_2d(view.get_jacobian(x0)); Jfd = fd_jac(lambda xx: view(xx), x0, {h!r})\nprint(J, Jfd)\n"
+                            "assert np.allclose(J, Jfd, rtol=2e-3, atol=1e-4 * max(1.0, float(np.max(np.abs(Jfd)))))\n"), "MeritFuctionView.get_jacobian")
                 break
     return rac.finish()
 
